@@ -368,6 +368,24 @@ def top_two_molecules(da, db):
     return "\n".join(lines) + "\n"
 
 
+def ref_size(tmpl, sigma):
+    pts = np.array([np.asarray(v, dtype=float) for v in tmpl.values()])
+    cog = pts.mean(axis=0)
+    vecs, radii = [], []
+    for p_ in pts:
+        d_ = p_ - cog
+        if np.linalg.norm(d_) > 1e-18:
+            vecs.append(d_ + d_ / np.linalg.norm(d_) * sigma)
+        else:
+            radii.append(sigma)
+            vecs.append(np.zeros(3))
+    vecs = np.array(vecs)
+    if not np.any(vecs):
+        return max(radii)
+    n = len(vecs)
+    return float(np.sqrt(sum(np.dot(a - b, a - b) for a in vecs for b in vecs) / (2.0 * n * n)))
+
+
 def check_two_molecules(case):
     """the same residue name with different content in two molecule types (and repeated instances)"""
     viols, evals, keys = [], 0, []
@@ -401,6 +419,12 @@ def check_two_molecules(case):
                     viols.append(dict(assertion="template-centre-of-geometry-zero", tags=[], message=f"{mm.mol_name}: {cog}", case=case1, detail={}))
                 if not top.volumes.get(key, 0) > 0:
                     viols.append(dict(assertion="size-positive", tags=[], message=f"{mm.mol_name}: size {top.volumes.get(key)}", case=case1, detail={}))
+                # the size belongs to this residue's own template: radius of gyration of the template positions pushed
+                # outwards by the particle radius (sigma 0.30 for every atom type here); recomputed independently
+                want_size = ref_size(tmpl, 0.30)
+                if abs(top.volumes.get(key, 0) - want_size) > 1e-9 and len(viols) < 20:
+                    viols.append(dict(assertion="size-computed-from-own-template", tags=["same-resname-different-content"],
+                                      message=f"{mm.mol_name} residue {sorted(d['names'])}: size {top.volumes.get(key)} but its template gives {want_size}", case=case1, detail={}))
         ka, kb = keys_by_def.get(da["id"], set()), keys_by_def.get(db["id"], set())
         if len(ka) != 1 or len(kb) != 1:
             viols.append(dict(assertion="isomorphic-residues-share-template", tags=[], message=f"instances of one molecule type got several keys {ka} {kb}", case=case1, detail={}))
